@@ -11,14 +11,25 @@
 (*           type tag t); s = 0 is a constant created by the component h   *)
 (*   stmts : Seq(statement) construct-time statements                      *)
 (*           [k |-> "c", a, b, at]        connect(a, b) executed in `at`   *)
-(*           [k |-> "u" | "l" | "f", at, wr : Seq([o, op]), rd : Seq(obj)] *)
+(*           [k |-> "u" | "l" | "f", at, wr : Seq([o, op]), rd : Seq(obj), *)
+(*            calls : Seq(stmt)]                                           *)
 (*                     @update / `//=` lambda / @update_ff block of `at`    *)
+(*           [k |-> "h", at, wr, rd, calls]                                *)
+(*                     `@s.func` helper function of component `at`.  A     *)
+(*                     helper is not a driver by itself: its writes and    *)
+(*                     reads belong to every BLOCK whose transitive call   *)
+(*                     closure (`calls` names helper statements of the     *)
+(*                     same component) contains it; one block reaching a   *)
+(*                     helper along several call paths (diamond) is still  *)
+(*                     ONE driver; a helper no block reaches drives        *)
+(*                     nothing.                                            *)
 (*                                                                         *)
 (* STATE MACHINE.  The state is the SET `done` of executed statements;     *)
 (* Stmt(i) executes any statement not yet executed, so the behaviours are  *)
 (* exactly the statement permutations.  Stmt also maintains, the way an    *)
-(* implementation would, an incrementally merged partition `part` and the  *)
-(* set `wr` of block writes.  After the last statement the writer          *)
+(* implementation would, an incrementally merged partition `part`, the set  *)
+(* `wr` of direct block / helper writes and the incrementally maintained   *)
+(* transitive closure `reach` of the call relation.  After the last statement the writer          *)
 (* resolution runs as a nondeterministic worklist (HeadNet / Conflict /       *)
 (* Stuck): headless nets are examined in ANY order.  The invariant         *)
 (* OpAgrees says that every statement order and every examination order    *)
@@ -39,6 +50,7 @@ ObjIds(D)    == 1 .. Len(D.objs)
 StmtIds(D)   == 1 .. Len(D.stmts)
 IsConn(D, i) == D.stmts[i].k = "c"
 IsBlk(D, i)  == D.stmts[i].k \in {"u", "l", "f"}
+IsFun(D, i)  == D.stmts[i].k = "h"
 IsConst(D, o) == D.objs[o].s = 0
 OBits(D, o)  == IF IsConst(D, o) THEN {}
                 ELSE {<<D.objs[o].s, j>> : j \in D.objs[o].lo .. (D.objs[o].hi - 1)}
@@ -49,6 +61,9 @@ TopLevel(D, o) == ~IsConst(D, o) /\ D.objs[o].d = 0
 WObjs(D, i)  == {D.stmts[i].wr[j].o : j \in DOMAIN D.stmts[i].wr}
 RObjs(D, i)  == {D.stmts[i].rd[j] : j \in DOMAIN D.stmts[i].rd}
 WBits(D, i)  == UNION {OBits(D, o) : o \in WObjs(D, i)}
+WRecs(D, i)  == {D.stmts[i].wr[j] : j \in DOMAIN D.stmts[i].wr}
+Calls(D, i)  == IF IsConn(D, i) THEN {} ELSE {D.stmts[i].calls[j] : j \in DOMAIN D.stmts[i].calls}
+CallE(D)     == UNION {{<<i, c>> : c \in Calls(D, i)} : i \in StmtIds(D)}
 TopInBits(D) == UNION {{<<s, j>> : j \in 0 .. (D.sigs[s].w - 1)} :
                          s \in {x \in DOMAIN D.sigs : D.sigs[x].h = 1 /\ D.sigs[x].k = "in"}}
 
@@ -62,6 +77,18 @@ Grow(E, X, n) == IF n = 0 THEN X
                  ELSE LET Y == Nbrs(E, X) IN IF Y = X THEN X ELSE Grow(E, Y, n - 1)
 RECURSIVE Dist(_, _, _, _)
 Dist(E, X, o, k) == IF o \in X \/ k > 64 THEN k ELSE Dist(E, Nbrs(E, X), o, k + 1)
+
+---------------------------------------------------------------------------
+\* Helper functions: the footprint of a block is its own plus that of every helper in its
+\* transitive call closure (least fixed point of the call relation; a diamond reaches a helper
+\* twice but the closure is a set).
+
+Callees(D, i) == Grow(CallE(D), Calls(D, i), Len(D.stmts))
+EWObjs(D, i)  == WObjs(D, i) \cup UNION {WObjs(D, h) : h \in Callees(D, i)}
+ERObjs(D, i)  == RObjs(D, i) \cup UNION {RObjs(D, h) : h \in Callees(D, i)}
+EWBits(D, i)  == UNION {OBits(D, o) : o \in EWObjs(D, i)}
+HWRecs(D, i)  == UNION {WRecs(D, h) : h \in Callees(D, i)}
+Recursive(D)  == \E h \in StmtIds(D) : IsFun(D, h) /\ h \in Callees(D, h)
 
 ---------------------------------------------------------------------------
 \* Writer resolution, declaratively.
@@ -105,18 +132,21 @@ NetRule(D, u, v, at) ==
 
 BlkRules(D, i) ==
     LET H == D.stmts[i].at
-    IN  (IF \E o \in RObjs(D, i) : Kind(D, o) = "wire" /\ Host(D, o) # H THEN {"T1"} ELSE {})
-        \cup (IF \E o \in WObjs(D, i) : Kind(D, o) = "in"   /\ Par(D, Host(D, o)) # H THEN {"T2"} ELSE {})
-        \cup (IF \E o \in WObjs(D, i) : Kind(D, o) = "out"  /\ Host(D, o) # H THEN {"T3"} ELSE {})
-        \cup (IF \E o \in WObjs(D, i) : Kind(D, o) = "wire" /\ Host(D, o) # H THEN {"T4"} ELSE {})
+    IN  (IF \E o \in ERObjs(D, i) : Kind(D, o) = "wire" /\ Host(D, o) # H THEN {"T1"} ELSE {})
+        \cup (IF \E o \in EWObjs(D, i) : Kind(D, o) = "in"   /\ Par(D, Host(D, o)) # H THEN {"T2"} ELSE {})
+        \cup (IF \E o \in EWObjs(D, i) : Kind(D, o) = "out"  /\ Host(D, o) # H THEN {"T3"} ELSE {})
+        \cup (IF \E o \in EWObjs(D, i) : Kind(D, o) = "wire" /\ Host(D, o) # H THEN {"T4"} ELSE {})
 
-\* assignment operators
-OpRules(D, i) ==
-    LET W == D.stmts[i].wr
-    IN  IF D.stmts[i].k = "f"
-        THEN (IF \E j \in DOMAIN W : W[j].op # "<<=" THEN {"OpF"} ELSE {})
-             \cup (IF \E j \in DOMAIN W : W[j].op = "<<=" /\ ~TopLevel(D, W[j].o) THEN {"OpFNT"} ELSE {})
-        ELSE (IF \E j \in DOMAIN W : W[j].op # "@=" THEN {"OpU"} ELSE {})
+\* assignment operators: of the writes in W when they are executed by a block of kind k
+OpRulesOf(D, k, W) ==
+    IF k = "f"
+    THEN (IF \E w \in W : w.op # "<<=" THEN {"OpF"} ELSE {})
+         \cup (IF \E w \in W : w.op = "<<=" /\ ~TopLevel(D, w.o) THEN {"OpFNT"} ELSE {})
+    ELSE (IF \E w \in W : w.op # "@=" THEN {"OpU"} ELSE {})
+OpRules(D, i)  == OpRulesOf(D, D.stmts[i].k, WRecs(D, i))
+\* ... of the assignments a block executes through its helpers.  The statement speaks of the
+\* operator "an update block uses": whether the text of a helper counts is left open (HelperOp).
+HOpRules(D, i) == OpRulesOf(D, D.stmts[i].k, HWRecs(D, i))
 
 ---------------------------------------------------------------------------
 \* The analysis of a statement set S of design D.
@@ -130,7 +160,7 @@ Analysis(D, S) ==
         blk   == {i \in S : IsBlk(D, i)}
         E     == Sym({<<D.stmts[i].a, D.stmts[i].b>> : i \in conn})
         nets  == {N \in {Grow(E, {o}, Len(D.objs)) : o \in ObjIds(D)} : Cardinality(N) > 1}
-        E0    == TopInBits(D) \cup UNION {WBits(D, i) : i \in blk}
+        E0    == TopInBits(D) \cup UNION {EWBits(D, i) : i \in blk}
         Hf    == FixH(D, E0, nets, {}, Cardinality(nets) + 1)
         FC    == [N \in nets |-> CandOf(D, E0, Hf, N)]
         wrt   == [N \in nets |-> IF Cardinality(FC[N]) = 1 THEN CHOOSE v \in FC[N] : TRUE ELSE 0]
@@ -150,7 +180,7 @@ Analysis(D, S) ==
         \* (block, top-level input, constant, relative driven by another net) / two overlapping
         \* members driven by one net
         mwwhy ==
-               (IF \E i, j \in blk : i # j /\ WBits(D, i) \cap WBits(D, j) # {} THEN {"blocks"} ELSE {})
+               (IF \E i, j \in blk : i # j /\ EWBits(D, i) \cap EWBits(D, j) # {} THEN {"blocks"} ELSE {})
           \cup (IF \E N \in nets : Cardinality(FC[N]) > 1 THEN {"cands"} ELSE {})
           \cup (IF rov # {} THEN {"rov"} ELSE {})
         defects ==
@@ -160,9 +190,9 @@ Analysis(D, S) ==
           \cup (IF \E i \in conn : D.stmts[i].a = D.stmts[i].b THEN {"Self"} ELSE {})
           \cup (IF \E i \in conn : D.objs[D.stmts[i].a].t # D.objs[D.stmts[i].b].t THEN {"TM"} ELSE {})
           \cup (IF \E i, j \in blk : i # j /\ D.stmts[i].k = "l" /\ D.stmts[j].k = "l"
-                                    /\ D.stmts[i].at = D.stmts[j].at /\ WObjs(D, i) = WObjs(D, j)
+                                    /\ D.stmts[i].at = D.stmts[j].at /\ EWObjs(D, i) = EWObjs(D, j)
                 THEN {"LamClash"} ELSE {})
-          \cup UNION {BlkRules(D, i) \cup OpRules(D, i) : i \in blk}
+          \cup UNION {BlkRules(D, i) \cup OpRules(D, i) \cup HOpRules(D, i) : i \in blk}
           \cup UNION {EdgeRule(i) : i \in conn}
         unspec ==
                (IF \E i, j \in conn : i # j /\ {D.stmts[i].a, D.stmts[i].b} = {D.stmts[j].a, D.stmts[j].b}
@@ -171,6 +201,11 @@ Analysis(D, S) ==
           \* a signal back into itself (one driver per bit, but no loop of connections either)
           \cup (IF \E N \in nets \ rov : wrt[N] # 0 /\ \E u, v \in N : u # v /\ OBits(D, u) \cap OBits(D, v) # {}
                 THEN {"NetSelfOverlap"} ELSE {})
+          \* an assignment operator inside a helper that is wrong for a block that reaches it
+          \cup (IF \E i \in blk : HOpRules(D, i) # {} THEN {"HelperOp"} ELSE {})
+          \* helpers that call each other in a cycle (pymtl3: InvalidFuncCallError when a block
+          \* reaches the cycle): not one of the statement's defects, not a legal design either
+          \cup (IF Recursive(D) THEN {"FuncCycle"} ELSE {})
     IN  [nets |-> nets, writer |-> wrt, cand |-> FC, rov |-> rov, mwwhy |-> mwwhy,
          defects |-> defects, unspec |-> unspec]
 
@@ -204,17 +239,18 @@ Images(ds) == UNION {Image(d) : d \in ds}
 VARIABLES did,      \* which design of the batch
           done,     \* executed statements
           part,     \* partition of the objects, merged incrementally by connects
-          wr,       \* <<block, object>> writes registered so far
+          wr,       \* <<block or helper, object>> direct writes registered so far
+          reach,    \* <<caller, helper>>: transitive closure of the calls registered so far
           phase,    \* "stmt" | "resolve" | "end"
           headed,   \* <<net, writer>> decided so far
           verdict,  \* "" | "ok" | "MW" | "NW"
           fin
-vars == <<did, done, part, wr, phase, headed, verdict, fin>>
+vars == <<did, done, part, wr, reach, phase, headed, verdict, fin>>
 
 D0 == Designs[did]
 
 Init == /\ did \in 1 .. Len(Designs)
-        /\ done = {} /\ wr = {} /\ phase = "stmt" /\ headed = {} /\ verdict = "" /\ fin = FALSE
+        /\ done = {} /\ wr = {} /\ reach = {} /\ phase = "stmt" /\ headed = {} /\ verdict = "" /\ fin = FALSE
         /\ part = {{o} : o \in ObjIds(Designs[did])}
 
 Stmt(i) ==
@@ -223,16 +259,24 @@ Stmt(i) ==
     /\ IF IsConn(D0, i)
        THEN LET pa == CHOOSE P \in part : D0.stmts[i].a \in P
                 pb == CHOOSE P \in part : D0.stmts[i].b \in P
-            IN  part' = (part \ {pa, pb}) \cup {pa \cup pb} /\ wr' = wr
-       ELSE part' = part /\ wr' = wr \cup {<<i, o>> : o \in WObjs(D0, i)}
+            IN  part' = (part \ {pa, pb}) \cup {pa \cup pb} /\ wr' = wr /\ reach' = reach
+       ELSE /\ part' = part /\ wr' = wr \cup {<<i, o>> : o \in WObjs(D0, i)}
+            \* the calls of i become edges: everything that reaches i now reaches the callee and
+            \* everything the callee reaches (callees may be registered before or after callers)
+            /\ LET Pred == {i} \cup {p[1] : p \in {q \in reach : q[2] = i}}
+                   Succ(c) == {c} \cup {p[2] : p \in {q \in reach : q[1] = c}}
+               IN  reach' = reach \cup UNION {Pred \X Succ(c) : c \in Calls(D0, i)}
     /\ phase' = IF done' = StmtIds(D0) THEN "resolve" ELSE "stmt"
     /\ UNCHANGED <<did, headed, verdict, fin>>
 
 NoStmt == /\ phase = "stmt" /\ StmtIds(D0) = {} /\ phase' = "resolve"
-          /\ UNCHANGED <<did, done, part, wr, headed, verdict, fin>>
+          /\ UNCHANGED <<did, done, part, wr, reach, headed, verdict, fin>>
 
 OpNets   == {P \in part : Cardinality(P) > 1}
-OpE      == TopInBits(D0) \cup UNION {OBits(D0, w[2]) : w \in wr}
+\* <<block, object>>: what a block writes itself or through a helper it reaches
+OpDrv    == {w \in wr : IsBlk(D0, w[1])}
+            \cup UNION {{<<p[1], w[2]>> : w \in {v \in wr : v[1] = p[2]}} : p \in {q \in reach : IsBlk(D0, q[1])}}
+OpE      == TopInBits(D0) \cup UNION {OBits(D0, w[2]) : w \in OpDrv}
                           \cup UNION {OBits(D0, o) : o \in UNION {M[1] \ {M[2]} : M \in headed}}
 OpCand(N) == {v \in N : IsConst(D0, v) \/ OBits(D0, v) \cap OpE # {}}
 Headless  == OpNets \ {M[1] : M \in headed}
@@ -247,25 +291,25 @@ OpOnly(N)  == CHOOSE v \in OpCand(N) : TRUE
 HeadNet(o) == /\ phase = "resolve" /\ IsMin(o) /\ Cardinality(OpCand(NetAt(o))) = 1
               /\ ~ROverlap(D0, NetAt(o), OpOnly(NetAt(o)))
               /\ headed' = headed \cup {<<NetAt(o), OpOnly(NetAt(o))>>}
-              /\ UNCHANGED <<did, done, part, wr, phase, verdict, fin>>
+              /\ UNCHANGED <<did, done, part, wr, reach, phase, verdict, fin>>
 
 Conflict(o) == /\ phase = "resolve" /\ IsMin(o)
                /\ \/ Cardinality(OpCand(NetAt(o))) > 1
                   \/ /\ Cardinality(OpCand(NetAt(o))) = 1
                      /\ ROverlap(D0, NetAt(o), OpOnly(NetAt(o)))
                /\ verdict' = "MW" /\ phase' = "end"
-               /\ UNCHANGED <<did, done, part, wr, headed, fin>>
+               /\ UNCHANGED <<did, done, part, wr, reach, headed, fin>>
 
 Stuck == /\ phase = "resolve" /\ \A N \in Headless : OpCand(N) = {}
          /\ verdict' = (IF Headless = {} THEN "ok" ELSE "NW") /\ phase' = "end"
-         /\ UNCHANGED <<did, done, part, wr, headed, fin>>
+         /\ UNCHANGED <<did, done, part, wr, reach, headed, fin>>
 
 Finish == /\ phase = "end" /\ ~fin
           /\ LET A == Analysis(D0, StmtIds(D0))
              IN  /\ \A N \in A.nets : PrintT(<<"R", did, "N", A.writer[N], N>>)
                  /\ PrintT(<<"R", did, "D", A.defects, A.unspec, A.mwwhy>>)
           /\ fin' = TRUE
-          /\ UNCHANGED <<did, done, part, wr, phase, headed, verdict>>
+          /\ UNCHANGED <<did, done, part, wr, reach, phase, headed, verdict>>
 
 MaxStmts == CHOOSE n \in 0 .. 64 : \A d \in DOMAIN Designs : Len(Designs[d].stmts) <= n
                                   /\ \E e \in DOMAIN Designs : Len(Designs[e].stmts) = n
@@ -290,7 +334,9 @@ OpAgrees ==
             mw == (\E N \in A.nets : Cardinality(A.cand[N]) > 1) \/ A.rov # {}
             nw == \E N \in A.nets : A.cand[N] = {}
         IN  /\ OpNets = A.nets
-            /\ wr = UNION {{<<i, o>> : o \in WObjs(D0, i)} : i \in {j \in StmtIds(D0) : IsBlk(D0, j)}}
+            /\ wr = UNION {{<<i, o>> : o \in WObjs(D0, i)} : i \in {j \in StmtIds(D0) : ~IsConn(D0, j)}}
+            /\ reach = UNION {{<<i, h>> : h \in Callees(D0, i)} : i \in StmtIds(D0)}
+            /\ OpDrv = UNION {{<<i, o>> : o \in EWObjs(D0, i)} : i \in {j \in StmtIds(D0) : IsBlk(D0, j)}}
             /\ (verdict = "MW") = mw
             /\ (verdict = "NW") = (~mw /\ nw)
             /\ (verdict = "ok") => headed = {<<N, A.writer[N]>> : N \in A.nets}
